@@ -198,6 +198,9 @@ func (m *Mirror) Step(op Op) Outcome {
 	if d := len(after.Logs) - len(before.Logs); d != 1 {
 		m.find("C08", fmt.Sprintf("C08/successful-write-appended-%d-logs:%s", d, op.Kind), nil)
 	}
+	if len(after.Logs) == len(before.Logs) && evAfter > evBefore {
+		m.find("C31", fmt.Sprintf("C31/event-published-for-a-write-that-was-never-committed:%s", op.Kind), map[string]any{"events": evAfter - evBefore})
+	}
 	if d := evAfter - evBefore; d != 1 {
 		m.find("C31", fmt.Sprintf("C31/successful-write-published-%d-events:%s", d, op.Kind), nil)
 	}
